@@ -26,7 +26,7 @@ class Check(CheckBase):
     AUDITS = {'integrity', 'restore', 'foreign'}
 
     def generate(self):
-        n = 48 if self.tier == 'quick' else 1500
+        n = 48 if self.tier == 'quick' else 4500
         cases = []
         for i in range(n):
             r = random.Random(f'{self.property_id}/{self.seed}/{i}')
@@ -43,7 +43,7 @@ class Check(CheckBase):
                 'cache': [None, 'per-user', 'shared'][i % 3],
             })
         # non-destructive commands overlapping in time from SEVERAL PROCESSES over one local repository directory
-        for i in range(4 if self.tier == 'quick' else 60):
+        for i in range(4 if self.tier == 'quick' else 120):
             r = random.Random(f'{self.property_id}/{self.seed}/xp/{i}')
             cases.append({'kind': 'xproc-group', 'seed': r.randrange(1 << 30),
                           'settings': gen.gen_settings(r, encrypted=i % 2 == 0, chunker=r.choice([(8, 64), (64, 1024)])),
